@@ -44,6 +44,18 @@ def race_reports(logdir):
 
 
 def run(tier):
+    try:
+        return run_(tier)
+    except vlib.Blocked as e:
+        V = vlib.Verdict("C10")
+        V.disagree("entry points block after earlier calls failed in the same process", {"harness_report": str(e),
+                   "history": "the warm-up calls of harness/cmd/acvh/warmup.go (among them more failed evaluations than processors)"})
+        vlib.write_evidence("C10", tier, {"states": 1, "transitions": 1, "traces_validated_against_impl": 0,
+                                          "samples": [str(e)], "evaluations": 1, "distinct_nontrivial": 0}, 0.0, violations=1)
+        return V.finish()
+
+
+def run_(tier):
     t0 = time.time()
     V = vlib.Verdict("C10")
     mc = proto.model_check("ACV_concurrent", "ACV concurrent model (2 procs, every interleaving of the stage actions)")
